@@ -10,7 +10,7 @@
     code as it is now (with the C06 fix: re-check after admission + `connected` tested before the
     socket's once); [prefix_cfg] the code before the fix; [recheck_only_cfg] the re-check alone. *)
 From SioV Require Import Base.GoSem Base.Conc Sio.Lifecycle Sio.LifecycleInv Sio.LifecycleProofs
-  Sio.Lifecycle2 Sio.Lifecycle2Inv Sio.Lifecycle2Proofs.
+  Sio.Lifecycle2 Sio.Lifecycle2Inv Sio.Lifecycle2Proofs Sio.LifecycleHs.
 Local Open Scope N_scope.
 
 Definition run (sched : list act) : st := exec (step code_cfg) sched init.
@@ -95,6 +95,23 @@ Theorem C06_closed_flag_after_loop_refuted :
     /\ nd (skA s) = 1 /\ sk_clean (skA s) = true
     /\ ever (skB s) = true /\ nd (skB s) = 0 /\ conn (skB s) = true /\ innsp (skB s) = true /\ room (skB s) = true.
 Proof. exists sched_flag_late. exact flag_late_witness. Qed.
+
+(** Server shutdown DURING THE HANDSHAKE (Sio/LifecycleHs.v): Server.Close (closed flag, one snapshot
+    of the store) racing newSocket (newServerSocket, the new-socket callback with the user's
+    callbacks inside, store.set, re-check of the closed flag).  For every schedule: when both have
+    finished, the session is closed, not in the store, and no namespace socket is connected on it
+    (a CONNECT is served only while the Engine.IO socket is open). *)
+Theorem C06_no_session_survives_server_close : forall sched,
+  let s := exec (hstep true) sched hinit in
+  hquiet s = true -> h_eclosed s = true /\ h_store s = false /\ h_conn s = false.
+Proof. exact hs_no_session_survives. Qed.
+
+(** ... and why the re-check has to come AFTER store.set: placed before the new-socket callback, a
+    Server.Close in between misses the session and is missed by it; a socket connects on a closed server. *)
+Theorem C06_closed_recheck_before_onsocket_refuted :
+  exists sched, let s := exec (hstep false) sched hinit in
+    hquiet s = true /\ h_closed s = true /\ h_eclosed s = false /\ h_store s = true /\ h_conn s = true.
+Proof. eexists. exact hs_early_check_witness. Qed.
 
 (** The admission race, on the code BEFORE the fix: the connection ends while the namespace
     middleware runs; the socket is admitted afterwards and stays for ever (in the namespace list,
